@@ -4559,7 +4559,8 @@ class Parser:
             if paren > 0:
                 self.raise_error("Expecting )", self._curr)
 
-            pattern = exp.var(self._find_sql(start, end))
+            pattern_sql = self._find_sql(start, end)
+            pattern = exp.var(pattern_sql) if pattern_sql else None
         else:
             pattern = None
 
